@@ -112,3 +112,98 @@ Proof.
   - eapply In_firstn; eauto.
   - eapply In_skipn; eauto.
 Qed.
+
+(* position / retain *)
+Lemma position_Some k l i : position k l = Some i -> nth_error l i = Some k.
+Proof.
+  revert i. induction l as [|x r IH]; simpl; intros i H; [discriminate|].
+  destruct (key_eqb_spec x k) as [->|Hne].
+  - inversion H. reflexivity.
+  - destruct (position k r) as [j|]; simpl in H; [|discriminate]. inversion H. simpl. apply IH. reflexivity.
+Qed.
+
+Lemma In_position k l : In k l -> exists i, position k l = Some i.
+Proof.
+  induction l as [|x r IH]; simpl; intros H; [tauto|].
+  destruct (key_eqb_spec x k) as [->|Hne]; [eauto|].
+  destruct H as [H|H]; [congruence|]. destruct (IH H) as [i Hi]. rewrite Hi. simpl. eauto.
+Qed.
+
+Lemma In_retain_ne k l x : In x (retain_ne k l) <-> In x l /\ x <> k.
+Proof.
+  unfold retain_ne. rewrite filter_In. destruct (key_eqb_spec x k); simpl; intuition congruence.
+Qed.
+
+Lemma retain_ne_notin k l : ~ In k l -> retain_ne k l = l.
+Proof.
+  induction l as [|x r IH]; simpl; intros H; [reflexivity|].
+  destruct (key_eqb_spec x k) as [->|Hne]; simpl; [tauto|]. f_equal. apply IH. tauto.
+Qed.
+
+Lemma retain_ne_app k a b : retain_ne k (a ++ b) = retain_ne k a ++ retain_ne k b.
+Proof. unfold retain_ne. apply filter_app. Qed.
+
+Lemma vec_remove_retain (l : list key) i c : NoDup l -> nth_error l i = Some c -> vec_remove l i = retain_ne c l.
+Proof.
+  intros Hn Hi. unfold vec_remove. rewrite (nth_split l i _ Hi) at 3. rewrite (nth_split l i _ Hi) in Hn.
+  apply NoDup_remove in Hn. destruct Hn as [_ Hn]. rewrite in_app_iff in Hn.
+  rewrite retain_ne_app. simpl. rewrite key_eqb_refl. simpl.
+  rewrite !retain_ne_notin by tauto. reflexivity.
+Qed.
+
+Lemma In_vec_remove_iff (l : list key) i c x : NoDup l -> nth_error l i = Some c -> (In x (vec_remove l i) <-> In x l /\ x <> c).
+Proof. intros Hn Hi. rewrite (vec_remove_retain l i c Hn Hi). apply In_retain_ne. Qed.
+
+Lemma NoDup_retain_ne k l : NoDup l -> NoDup (retain_ne k l).
+Proof. apply NoDup_filter. Qed.
+
+(* upd on a duplicate free list *)
+Lemma In_upd_iff (l : list key) i old new x : NoDup l -> nth_error l i = Some old ->
+  (In x (upd l i new) <-> x = new \/ (In x l /\ x <> old)).
+Proof.
+  intros Hn Hi. rewrite (upd_split l i new old Hi). rewrite in_app_iff. simpl.
+  rewrite <- (In_vec_remove_iff l i old x Hn Hi). unfold vec_remove. rewrite in_app_iff. intuition.
+Qed.
+
+Lemma NoDup_upd (l : list key) i old new : NoDup l -> nth_error l i = Some old -> ~ In new l -> NoDup (upd l i new).
+Proof.
+  intros Hn Hi Hnew. rewrite (upd_split l i new old Hi). apply NoDup_insert_mid.
+  - apply (NoDup_vec_remove l i Hn).
+  - intros H. apply Hnew. eapply In_vec_remove. exact H.
+Qed.
+
+(* drain *)
+Lemma skipn_skipn {A} a b (l : list A) : skipn a (skipn b l) = skipn (b + a) l.
+Proof.
+  revert l. induction b as [|b IH]; intros l; simpl; [reflexivity|].
+  destruct l; [destruct a; reflexivity|]. apply IH.
+Qed.
+
+Lemma drain_split {A} (l : list A) a b : a <= b ->
+  l = firstn a l ++ vec_drained l a b ++ skipn b l.
+Proof.
+  intros Hab. unfold vec_drained.
+  rewrite <- (firstn_skipn a l) at 1. f_equal.
+  rewrite <- (firstn_skipn (b - a) (skipn a l)) at 1. f_equal.
+  rewrite skipn_skipn. f_equal. lia.
+Qed.
+
+Lemma NoDup_app_mid {A} (a d r : list A) : NoDup (a ++ d ++ r) -> NoDup (a ++ r) /\ forall x, In x (a ++ r) -> ~ In x d.
+Proof.
+  revert a. induction d as [|y d IH]; intros a H; simpl in *.
+  - split; [exact H | tauto].
+  - pose proof (NoDup_remove _ _ _ H) as [H1 H2]. destruct (IH a H1) as [H3 H4]. split; [exact H3|].
+    intros x Hx [->|Hd].
+    + apply H2. rewrite in_app_iff in *. rewrite in_app_iff. tauto.
+    + apply (H4 x Hx Hd).
+Qed.
+
+Lemma drain_facts {A} (l : list A) a b : a <= b -> NoDup l ->
+  NoDup (vec_drain_rest l a b) /\
+  (forall x, In x l <-> In x (vec_drain_rest l a b) \/ In x (vec_drained l a b)) /\
+  (forall x, In x (vec_drain_rest l a b) -> ~ In x (vec_drained l a b)).
+Proof.
+  intros Hab Hn. pose proof (drain_split l a b Hab) as Hs. unfold vec_drain_rest.
+  rewrite Hs in Hn. destruct (NoDup_app_mid _ _ _ Hn) as [H1 H2]. split; [exact H1|]. split; [|exact H2].
+  intros x. rewrite Hs at 1. rewrite !in_app_iff. tauto.
+Qed.
